@@ -582,35 +582,54 @@ type codecArm struct {
 
 func (c *Ctx) armCalls(list []ast.Stmt) (calls []string, guards []string) {
 	seen := map[string]bool{}
-	for _, s := range list {
-		ast.Inspect(s, func(n ast.Node) bool {
-			switch n := n.(type) {
-			case *ast.CallExpr:
-				if tv, ok := c.infoFor(n).Types[n.Fun]; ok && tv.IsType() {
-					return true
+	visited := map[*ast.FuncDecl]bool{}
+	var walk func(list []ast.Stmt, depth int)
+	walk = func(list []ast.Stmt, depth int) {
+		for _, s := range list {
+			ast.Inspect(s, func(n ast.Node) bool {
+				switch n := n.(type) {
+				case *ast.CallExpr:
+					if tv, ok := c.infoFor(n).Types[n.Fun]; ok && tv.IsType() {
+						return true
+					}
+					name := c.calleeName(n)
+					if name == "" {
+						name = "dynamic"
+					}
+					if fn, ok := c.callee(n).(*types.Func); ok {
+						if role := c.serRoleOf(fn); role != "" {
+							name = role // a codec primitive under whatever name
+						} else if fn.Pkg() != nil && fn.Pkg().Path() == bclPath && depth < 2 {
+							// a helper holding (part of) the arm: its calls are the arm's
+							if hd := c.funcDecls[fn]; hd != nil && hd.Body != nil && !visited[hd] && len(hd.Body.List) <= 12 {
+								if sig := fn.Type().(*types.Signature); sig.Results().Len() == 2 && isErrorType(sig.Results().At(1).Type()) && isNamed(sig.Results().At(0).Type(), bclPath, "value") {
+									visited[hd] = true
+									walk(hd.Body.List, depth+1)
+									return true
+								}
+							}
+						}
+					}
+					if !seen[name] {
+						seen[name] = true
+						calls = append(calls, name)
+					}
+				case *ast.IfStmt:
+					guards = append(guards, types.ExprString(n.Cond))
 				}
-				name := c.calleeName(n)
-				if name == "" {
-					name = "dynamic"
-				}
-				if !seen[name] {
-					seen[name] = true
-					calls = append(calls, name)
-				}
-			case *ast.IfStmt:
-				guards = append(guards, types.ExprString(n.Cond))
-			}
-			return true
-		})
+				return true
+			})
+		}
 	}
+	walk(list, 0)
 	sort.Strings(calls)
 	return
 }
 
 func ruleCodecAgreement(c *Ctx, r *Report, rule string, spec *formatSpec) {
 	r.rule(rule, 10, "per type code the encoder (valueToBytes) and the stream decoder (valueFromBuf) use mirror-image codecs: int <-> sqlite4 varint of the two's-complement image; float64 <-> 8 bytes big-endian IEEE bits; string <-> varint length + bytes; bool <-> one byte; nil <-> type code only; a decoder arm rejects nothing but a failed read")
-	_, enc := c.find("valueToBytes")
-	_, dec := c.find("valueFromBuf")
+	_, enc := c.serPrim("valueToBytes")
+	_, dec := c.serPrim("valueFromBuf")
 	if enc == nil || dec == nil {
 		r.bad(rule, "anchors", "valueToBytes / valueFromBuf not found", "")
 		return
@@ -807,31 +826,26 @@ func ruleCodecAgreement(c *Ctx, r *Report, rule string, spec *formatSpec) {
 		calls, _ := c.armCalls(fd.Body.List)
 		r.check(strings.Join(calls, " ") == want, rule, fn, want, fmt.Sprintf("%s uses [%s], expected [%s]", fn, strings.Join(calls, " "), want), c.pos(fd.Pos()))
 	}
-	// bool payload: 1 / 0, decoded as != 0
+	// bool payload: 1 / 0, decoded as != 0 — the encoder interpreted for a bool argument stores 1 on some path and 0
+	// on another at p[1], and nothing else there
 	okBool := false
-	if ea, ok := encArms["bool"]; ok {
-		_ = ea
-		vals := map[int64]bool{}
-		ast.Inspect(enc.Body, func(n ast.Node) bool {
-			cc, ok := n.(*ast.CaseClause)
-			if !ok || len(cc.List) != 1 || types.TypeString(c.typeOf(cc.List[0]), nil) != "bool" {
-				return true
-			}
-			ast.Inspect(cc, func(x ast.Node) bool {
-				if as, ok := x.(*ast.AssignStmt); ok && len(as.Lhs) == 1 {
-					if ix, ok := as.Lhs[0].(*ast.IndexExpr); ok {
-						if k, isC := c.intConst(ix.Index); isC && k == 1 {
-							if v, isV := c.intConst(as.Rhs[0]); isV {
-								vals[v] = true
-							}
-						}
+	{
+		paths, _ := c.encodeStores(enc, "bool", types.Typ[types.Bool])
+		vals := map[string]bool{}
+		other := false
+		for _, p := range paths {
+			for _, st := range p {
+				if strings.HasPrefix(st, "1=") {
+					v := strings.TrimPrefix(st, "1=")
+					if v == "0" || v == "1" {
+						vals[v] = true
+					} else {
+						other = true
 					}
 				}
-				return true
-			})
-			return false
-		})
-		okBool = len(vals) == 2 && vals[0] && vals[1]
+			}
+		}
+		okBool = vals["0"] && vals["1"] && !other
 	}
 	r.check(okBool, rule, "enc/BOOL-payload", "p[1] = 1 or 0", "a bool must be encoded as one payload byte holding 1 or 0", c.pos(enc.Pos()))
 }
@@ -839,7 +853,7 @@ func ruleCodecAgreement(c *Ctx, r *Report, rule string, spec *formatSpec) {
 // ruleUvarintLen: the length table of the sqlite4 varint.
 func ruleUvarintLen(c *Ctx, r *Report, rule string) {
 	r.rule(rule, 1, "uvarintFromBuf, interpreted with a symbolic first byte, reads in total 1 byte when the first byte is <= 240, 2 bytes when it is <= 248 and (first byte - 246) bytes otherwise (249 -> 3 … 255 -> 9) — the sqlite4 varint layout — on paths that together cover 0..255; every buffer slice it reads into fits the buffer for the longest varint")
-	_, fd := c.find("uvarintFromBuf")
+	_, fd := c.serPrim("uvarintFromBuf")
 	if fd == nil {
 		r.bad(rule, "uvarintLen", "uvarintFromBuf not found (the stream decoder needs the length of a varint from its first byte)", "")
 		return
@@ -1034,6 +1048,12 @@ func ruleRejectsOnlyDamage(c *Ctx, r *Report, rule string) {
 		})
 	}
 	visit(obj, fd)
+	// the decoding primitives, however Load gets to them (a table of steps hides them from the walk above)
+	for _, role := range []string{"uvarintFromBuf", "valueFromBuf"} {
+		if pf, pd := c.serPrim(role); pd != nil {
+			visit(pf, pd)
+		}
+	}
 	// Load and what it interprets in place are decided on the model; the decoding primitives by their syntax
 	covered := ruleRejectsByModel(c, r, rule)
 	{
